@@ -797,6 +797,9 @@ impl Gen {
             }
             Entry => {
                 let slot = self.slot(ex);
+                if self.rng.chance(1, 60) {
+                    return Some(OpKind::EntryHuge { slot, payload: self.payload() });
+                }
                 OpKind::Entry {
                     slot,
                     h: self.target(ex, slot)?,
